@@ -154,6 +154,13 @@ func (r *Run) Violation(property, sig, msg string, replay any) {
 	fmt.Printf("VIOLATION property=%s replay=%s\n", property, path)
 }
 
+// CountViolations adds violations that an auxiliary pass has already printed.
+func (r *Run) CountViolations(n int) {
+	r.mu.Lock()
+	defer r.mu.Unlock()
+	r.violations += n
+}
+
 func (r *Run) Violations() int {
 	r.mu.Lock()
 	defer r.mu.Unlock()
